@@ -156,13 +156,13 @@ def run(ctx):
     ctx.check(okm, "C10.b", "merge_bins:min_frequency-map", why, why, mb.where)
 
     chk = {}
-    for n in ast.walk(mb.node):
-        if isinstance(n, ast.If) and U(n.test) == "self.ndim == 1":
-            for br, key in ((n.body, "1d"), (n.orelse, "nd")):
-                for st in br:
-                    for x in ast.walk(st):
-                        if isinstance(x, ast.Assign) and U(x.targets[0]) == "check":
-                            chk[key] = U(x.value)
+    for path in function_paths(mb.node):
+        cs = dict((U(s_[1]), s_[2]) for s_ in path if s_[0] == "cond")
+        if "self.ndim == 1" in cs or "self.ndim != 1" in cs:
+            one_d = cs.get("self.ndim == 1", not cs.get("self.ndim != 1", True))
+            for s_ in path:
+                if s_[0] == "stmt" and isinstance(s_[1], ast.Assign) and U(s_[1].targets[0]) == "check":
+                    chk["1d" if one_d else "nd"] = U(s_[1].value)
     ok_marg = chk.get("1d") in ("self.frequencies", "self._frequencies") and chk.get("nd") in (
         "cast(HistogramND, self).projection(axis).frequencies", "self.projection(axis).frequencies")
     ctx.check(ok_marg, "C10.b", "merge_bins:min_frequency-marginal", "thresholds are compared with the marginal of the merged axis (projection(axis))",
@@ -182,7 +182,7 @@ def run(ctx):
     okint = False
     for path in function_paths(mb.node):
         cs = [(U(s[1]), s[2]) for s in path if s[0] == "cond"]
-        if any(t in ("not amount == int(amount)", "amount != int(amount)") and v for t, v in cs) and end_kind(path) == "raise":
+        if any((t == "amount != int(amount)" and v) or (t == "amount == int(amount)" and not v) for t, v in cs) and end_kind(path) == "raise":
             if not any(U(c.func) == "self._change_binning" for s in path if s[0] == "stmt" for c in calls_in(s[1])):
                 okint = True
     ctx.check(okint, "C10.c", "merge_bins:integral-amount", "amount != int(amount) -> ValueError before anything changes",
@@ -225,7 +225,7 @@ def run(ctx):
     for path in function_paths(mb.node):
         cs = [(U(s[1]), s[2]) for s in path if s[0] == "cond"]
         sts = [U(s[1]) for s in path if s[0] == "stmt" and not (isinstance(s[1], ast.Expr) and isinstance(s[1].value, ast.Constant))]
-        if ("not inplace", True) in cs:
+        if ("inplace", False) in cs:
             okcopy = (len(sts) >= 3 and sts[0] == "histogram = self.copy()" and sts[1].startswith("histogram.merge_bins(")
                       and "inplace=True" in sts[1] and "axis=axis" in sts[1] and sts[-1] == "return histogram")
         if ("axis is None", True) in cs and any(s[0] == "for" and s[2] for s in path):
